@@ -543,9 +543,21 @@ def _d_update(it, v, args, kwargs, node):
         if other.open or other.default is not None:
             v.open = True
         v.merged = getattr(v, 'merged', []) + [other]
+        comp = getattr(other, 'comp', None)
+        if comp is not None and isinstance(comp[0], TupleV) and len(comp[0].items) == 2 and not other.items and not other.sym_stores:
+            # update({key: value for ...}): the generic pair is stored like `d[key] = value` for every element
+            v.sym_stores.append((comp[0].items[0], comp[0].items[1]))
+            it.event('setitem', node, obj=v, key=comp[0].items[0], value=comp[0].items[1], generic=True, source=other,
+                     filtered=bool(comp[2]))
     elif other is not None:
         v.open = True
         v.merged = getattr(v, 'merged', []) + [other]
+        el = it.resolve(getattr(other, 'elem', None)) if isinstance(other, (IterV, ListV)) and getattr(other, 'items', None) is None else None
+        if isinstance(el, TupleV) and len(el.items) == 2:
+            # update(<pairs>): the generic pair is stored like `d[key] = value` executed for every element of the iterable
+            v.sym_stores.append((el.items[0], el.items[1]))
+            it.event('setitem', node, obj=v, key=el.items[0], value=el.items[1], generic=True, source=other,
+                     filtered=bool(getattr(other, 'filtered', False)))
     for k, x in kwargs.items():
         if k != '**':
             v.items[k] = x
@@ -569,6 +581,10 @@ def _d_items(it, v, args, kwargs, node):
         r = IterV(fresh(it), src=v, desc='items')
         r.fresh = fresh
         return r
+    comp = getattr(v, 'comp', None)
+    if comp is not None and isinstance(comp[0], TupleV) and len(comp[0].items) == 2 and not v.items and not v.sym_stores:
+        # a dict comprehension that was not changed since: its items are the generic (key, value) pair of the comprehension
+        return IterV(TupleV(list(comp[0].items)), src=v, desc='items')
     val = SymV(it.fresh('value'), 'any', origin=('value-of', v), tags=v.tags)
     return IterV(TupleV([k, val]), src=v, desc='items')
 
@@ -585,6 +601,9 @@ def _d_values(it, v, args, kwargs, node):
     if isinstance(v, PyLit):
         return IterV(SymV(it.fresh('value'), 'any', origin=('value-of', v)), src=v, desc='values',
                      length=Lin.const(len(v.value)))
+    comp = getattr(v, 'comp', None)
+    if comp is not None and isinstance(comp[0], TupleV) and len(comp[0].items) == 2 and not v.items and not v.sym_stores:
+        return IterV(comp[0].items[1], src=v, desc='values')
     return IterV(SymV(it.fresh('value'), 'any', origin=('value-of', v)), src=v, desc='values')
 
 
